@@ -145,6 +145,22 @@ def run_case(case, ctx):
         ctx.valid()
         if np.asarray(g).shape != (1,) or abs(float(g[0]) - E) > 1e-9:
             ctx.violation("scale-shift-invariance", "entropy changes under x -> %r*x + %r" % (a, c), observed=np.asarray(g).tolist(), expected=E, extra={"dgm": D2})
+    # far from the origin, at coordinates that are not short binary fractions: death - birth is still exact in
+    # floating point (Sterbenz), so the entropy of the bars AS STORED is matched to round-off - a normaliser
+    # formed as sum(deaths) - sum(births), or lengths taken in single precision, is not
+    import fractions
+
+    for a, c in ((1.0 / 3.0, 1048576.0 + 1.0 / 3.0), (1.0, 1e8 + 0.1), (0.001, 1e10 / 3.0), (1.0 / 7.0, -3e6 - 0.7)):
+        Df = np.array([[a * b + c, a * d + c] for b, d in D], dtype=float)
+        lens_exact = [fractions.Fraction(float(d_)) - fractions.Fraction(float(b_)) for b_, d_ in Df]
+        if min(lens_exact) <= 0:
+            continue
+        Ef = OS.entropy([float(x) for x in lens_exact])
+        g = pe(ctx, Df)
+        ctx.valid()
+        if np.asarray(g).shape != (1,) or abs(float(g[0]) - Ef) > 1e-12 * max(1.0, Ef):
+            ctx.violation("value-far-offset", "entropy of a barcode far from the origin (x -> %r*x + %r) is not the entropy of its bar lengths" % (a, c),
+                          observed=np.asarray(g).tolist(), expected=Ef, extra={"dgm": Df.tolist()})
     # normalised variant
     if n >= 2:
         g = pe(ctx, A, normalize=True)
